@@ -80,7 +80,7 @@ Transform(name, args) ==
             ELSE LET r == XOnlyTweakAdd(b1, args[2][2]) IN IF ~r[1] THEN TfFail ELSE Data(<<2 + r[2]>> \o r[3])
       [] name = "verify_sig" ->
             IF nb # 3 \/ Len(b1) # 32 THEN TfFail
-            ELSE IF Len(args[2][2]) = 32 THEN (IF ~IsOnCurveX(args[2][2]) THEN TfFail ELSE IntV(IntFromSmall(IF SchnorrVerify(args[2][2], args[3][2], b1) THEN 1 ELSE 0)))
+            ELSE IF Len(args[2][2]) = 32 THEN (IF ~IsOnCurveX(args[2][2]) \/ Len(args[3][2]) # 64 THEN TfFail ELSE IntV(IntFromSmall(IF SchnorrVerify(args[2][2], args[3][2], b1) THEN 1 ELSE 0)))
             \* ECDSA: the signature is DER read leniently (as Bitcoin reads old signatures), without hash-type byte; high s accepted
             ELSE IF ~KeyShape(args[2][2]) THEN TfFail
             ELSE LET d == LaxDER(args[3][2])
@@ -97,7 +97,7 @@ Transform(name, args) ==
             ELSE LET r == PubKeyParse(b1) IN IF ~r[1] THEN TfFail ELSE Data(Tail(r[2]))
       [] name = "verify_sig_compact" ->      \* ECDSA over a 64-byte r || s signature (high s accepted); 32-byte keys: BIP340 as verify_sig
             IF nb # 3 \/ Len(b1) # 32 THEN TfFail
-            ELSE IF Len(args[2][2]) = 32 THEN (IF ~IsOnCurveX(args[2][2]) THEN TfFail ELSE IntV(IntFromSmall(IF SchnorrVerify(args[2][2], args[3][2], b1) THEN 1 ELSE 0)))
+            ELSE IF Len(args[2][2]) = 32 THEN (IF ~IsOnCurveX(args[2][2]) \/ Len(args[3][2]) # 64 THEN TfFail ELSE IntV(IntFromSmall(IF SchnorrVerify(args[2][2], args[3][2], b1) THEN 1 ELSE 0)))
             ELSE IF ~KeyShape(args[2][2]) THEN TfFail
             ELSE LET sg == args[3][2]
                  IN IntV(IntFromSmall(IF Len(sg) = 64 /\ ECDSAVerify(args[2][2], FirstN(sg, 32), LastN(sg, 32), b1) THEN 1 ELSE 0))
